@@ -10,7 +10,7 @@ class C03(TieCheck):
     harness = "c03"
     extra_trust = [
         "model: coq/Route/Heap.v (copyOnWriteSearch, tXn.insert/update/remove/truncate/snapshot/clone/commit, node.clone/newNode/newNodeFromRef/updateEdge, root slice operations transliterated over an explicit heap of node and array objects; writable LRU = list with arbitrary eviction) run through Heap2.step (router, write transaction, snapshots); tied to /repo by graph isomorphism of the dumped object graph (addresses renamed in first-visit order on both sides) after every event",
-        "specification (no model): digests of the full re-observation of every snapshot (All, Methods, Routes, Has, Route, Reverse, Lookup with params, Len, structural dump) when taken vs after every later event, and identity + contents of every object reachable from a snapshot between consecutive dumps",
+        "specification (no model): digests of the full re-observation of every snapshot (All, Methods, Prefix, Routes, Has, Route, Reverse, Lookup with params, Len, structural dump) when taken vs after every later event, with range loops over the Seq-returning methods of newer iterators left early in between (an abandoned walk must yield the first items of its snapshot's frozen listing); identity + contents of every object reachable from a snapshot between consecutive dumps; the published routes and the open transaction's view vs an independent tracker built from the issued write calls and Begin/Commit/Abort only (the same history without its snapshot calls)",
         "pattern validity, psLen and hostSplit are taken from the real parseRoute (oracle input; parseRoute itself is C10); the hash used for the digests is FNV-1a 64",
     ]
     assumptions = [
